@@ -64,6 +64,9 @@ type parallelNode struct { // serialNode?
 	childIndexes []int
 
 	multiscan *multiScanNode
+
+	// The pipeNode read by the children, if they are the joins of a group member selection.
+	pipe *pipeNode
 }
 
 func (p *parallelNode) applyToPlans(fn func(n planNode) error) error {
@@ -110,6 +113,11 @@ func (p *parallelNode) Close() error {
 func (p *parallelNode) Next() (bool, error) {
 	p.currentValue = p.documentMapping.NewDoc()
 
+	var pipeDocIndex int
+	if p.pipe != nil {
+		pipeDocIndex = p.pipe.docIndex
+	}
+
 	var orNext bool
 	for i, plan := range p.children {
 		var next bool
@@ -117,6 +125,10 @@ func (p *parallelNode) Next() (bool, error) {
 		// isMerge := false
 		switch n := plan.(type) {
 		case *scanNode, *typeIndexJoin:
+			if p.pipe != nil {
+				// every child reads the same document of the pipe
+				p.pipe.docIndex = pipeDocIndex
+			}
 			// isMerge = true
 			next, err = p.nextMerge(i, n)
 		case *dagScanNode:
@@ -231,6 +243,20 @@ func (s *selectNode) addSubPlan(fieldIndex int, newPlan planNode) error {
 			s.source = m
 			return nil
 		}
+		if pipe, isPipe := s.origSource.(*pipeNode); isPipe {
+			// The joins of a group member selection read the documents of the group through
+			// the pipeNode: there is no scanNode to share, the parallelNode makes them read
+			// the same document.
+			parallelNode := &parallelNode{
+				p:         s.planner,
+				pipe:      pipe,
+				docMapper: docMapper{s.source.DocumentMap()},
+			}
+			parallelNode.addChild(-1, s.source)
+			parallelNode.addChild(fieldIndex, newPlan)
+			s.source = parallelNode
+			return nil
+		}
 		origScan, _ := walkAndFindPlanType[*scanNode](newPlan)
 		if origScan == nil {
 			return ErrFailedToFindScanNode
@@ -263,6 +289,10 @@ func (s *selectNode) addSubPlan(fieldIndex int, newPlan planNode) error {
 		switch newPlan.(type) {
 		// We have a internal multiscanNode on our MultiNode
 		case *scanNode, *typeIndexJoin:
+			if sourceNode.pipe != nil {
+				// the children read a pipeNode, not a shared scanNode
+				break
+			}
 			// replace our new node internal scanNode with our existing multiscanner
 			if err := s.planner.walkAndReplacePlan(newPlan, sourceNode.multiscan.Source(), sourceNode.multiscan); err != nil {
 				return err
